@@ -199,6 +199,48 @@ def task_field(a, env):
     return r
 
 
+def pow_sweep_exponents(lo, hi, quick):
+    """exponents around powers of two over a long range of bit lengths (bit-length / log2 based
+    round counts): 2^k, 2^k + 1, 2^k - 1"""
+    es = []
+    for k in range(lo, hi):
+        es += [1 << k, (1 << k) + 1]
+        if k % 3 == 0:
+            es.append((1 << k) - 1)
+    return es
+
+
+def task_pow_sweep(a, env):
+    fam, p, mc = a["fam"], a["p"], tuple(a["mc"])
+    cfg = lib.Cfg(fam, p, mc)
+    F = cfg.F
+    r = R("pow:exponents-around-2^k:%s" % fam)
+    xm = tuple(a["x"])
+    x = cfg.lib(xm)
+    for e in pow_sweep_exponents(a["lo"], a["hi"], env["tier"] == "quick") + [(1 << k) for k in a.get("extra", [])]:
+        got = fl.run_op(cfg, "pow", x, e)
+        exp = ("ok", F.pow(xm, e))
+        r.ev += 1
+        if got != exp:
+            r.viol("C08:%s:FQ%d:pow:exponent-near-2^k" % (fam, len(mc)), ME + ":replay_powsweep",
+                   {"fam": fam, "p": p, "mc": list(mc), "x": list(xm), "e": hex(e)}, exp, got,
+                   note="bit length %d" % e.bit_length())
+    r.dn += 1
+    r.transitions = r.ev
+    if a.get("sample"):
+        r.sample({"family": fam, "field": "GF(%d^%d)" % (p, len(mc)), "exponents": "2^k, 2^k+1, 2^k-1 for k in [%d, %d)" % (a["lo"], a["hi"])})
+    return r
+
+
+def replay_powsweep(a):
+    cfg = lib.Cfg(a["fam"], a["p"], tuple(a["mc"]))
+    xm = tuple(a["x"])
+    e = int(a["e"], 16)
+    got = fl.run_op(cfg, "pow", cfg.lib(xm), e)
+    exp = ("ok", cfg.F.pow(xm, e))
+    return None if got == exp else {"expected": exp, "observed": got}
+
+
 def subsub_case(fam, p1, mc1, p2, mc2, xs):
     """class A over (p1, mc1) is created and used; then B = a subclass OF A overriding the prime and
     the modulus (p2, mc2) is created and used; then A again"""
@@ -538,6 +580,17 @@ def run(ctx):
                 spec.update({"fam": fam, "p": p, "mc": list(mc), "Tcap": 5})
                 tasks.append(("field", spec))
     ctx.bounds["fq12_moduli"] = {str(p): [list(m) for m in v] for p, v in d12.items()}
+    # exponent sweep around powers of two, bit lengths 40 .. 4500 (thorough: .. 9000)
+    hi_k = 4500 if ctx.quick else 9000
+    for fam in ("ref", "opt"):
+        for (p, mc, x) in ((3, [1, 0], [1, 2]), (5, list(fl.quadratics(5)[1]), [2, 3])):
+            step = 280 if ctx.quick else 140
+            for lo in range(40, hi_k, step):
+                # every k in a window of 24 at the start of each stride, and every k in [2930, 3030)
+                tasks.append(("pow_sweep", {"fam": fam, "p": p, "mc": mc, "x": x, "lo": lo, "hi": lo + 24,
+                                            "extra": list(range(lo + 24, min(lo + step, hi_k), 16)), "sample": lo == 40}))
+            for lo in range(2930, 3030, 25):
+                tasks.append(("pow_sweep", {"fam": fam, "p": p, "mc": mc, "x": x, "lo": lo, "hi": lo + 25}))
     # histories: two classes over the same prime with different moduli in one process
     for fam in ("ref", "opt"):
         for p in ([3, 5, 7] if ctx.quick else [3, 5, 7, 11]):
